@@ -4,7 +4,7 @@ A fixed family of test functions with k <= 4 paths; the outcome of each path is 
 {success, revert, panic, fail-flag, stuck (unsupported opcode)} by branching on marker constants;
 the "solver" is vfw/stubsolver.py, whose reply and delay for each query come from a generated
 script keyed by the marker that occurs positively in the query: {sat + concrete model, sat +
-abstract model, unsat, unsat followed by an error and exit 1, unknown, hang past the assertion
+abstract model, unsat, unsat with an empty core, unsat followed by an error and exit 1, unknown, hang past the assertion
 timeout, empty output, garbage, non-zero exit without output, killed by a signal}; completion
 order is controlled by the delays; flags --early-exit, --cache-solver, --solver-threads in {1,4}.
 Quick: Hypothesis samples scripts; thorough: all outcome x reply assignments for k <= 2 are
@@ -39,12 +39,12 @@ WATCHDOG_S = {"quick": 900, "thorough": 7200}
 MANIFEST = {
     "category": "fault_enumeration",
     "technique": "fault injection through a scripted stub solver (reply kind and delay per query) under generated per-path outcomes and flags; verdict compared with a reference precedence function; metamorphic check under permuted completion orders; exhaustive enumeration for k<=2 in the thorough tier",
-    "text": "run_contract is driven with hand-assembled tests whose paths succeed, revert, panic, set the fail flag or get stuck, while a stub solver answers each query according to a generated script (sat with a concrete or abstract model, unsat, unsat followed by an error, unknown, hang past the timeout, empty/garbage output, non-zero exit, death by signal) after a scripted delay; the reported exit code must equal the reference precedence FAIL > ERROR > TIMEOUT > ERROR(stuck) > ERROR(all reverted) > PASS and must not change when completion order is permuted, with and without --early-exit, --cache-solver and several solver threads.",
+    "text": "run_contract is driven with hand-assembled tests whose paths succeed, revert, panic, set the fail flag or get stuck, while a stub solver answers each query according to a generated script (sat with a concrete or abstract model, unsat with a full or an empty core, unsat followed by an error, unknown, hang past the timeout, empty/garbage output, non-zero exit, death by signal) after a scripted delay; the reported exit code must equal the reference precedence FAIL > ERROR > TIMEOUT > ERROR(stuck) > ERROR(all reverted) > PASS and must not change when completion order is permuted, with and without --early-exit, --cache-solver and several solver threads.",
     "note": "trusts the stub solver's marker-to-query mapping (checked through its own log) and the reference precedence function transcribed from the property statement",
 }
 
 OUTCOMES = ["success", "revert", "panic", "failflag", "stuck", "stuck_nested"]
-REPLIES = ["sat", "sat_abstract", "unsat", "unsat_err", "unknown", "hang", "empty", "garbage", "exit3", "sigkill"]
+REPLIES = ["sat", "sat_abstract", "unsat", "unsat_emptycore", "unsat_err", "unknown", "hang", "empty", "garbage", "exit3", "sigkill"]
 MARK = ["a1" * 32, "b2" * 32, "c3" * 32, "d4" * 32]
 STUB = os.path.join(os.path.dirname(os.path.dirname(os.path.abspath(__file__))), "vfw", "stubsolver.py")
 
@@ -79,7 +79,7 @@ def build(case):
 
 
 def classify(reply):
-    return {"sat": "sat", "sat_abstract": "sat", "unsat": "unsat", "unsat_err": "unsat", "unknown": "unknown", "hang": "unknown"}.get(reply, "err")
+    return {"sat": "sat", "sat_abstract": "sat", "unsat": "unsat", "unsat_emptycore": "unsat", "unsat_err": "unsat", "unknown": "unknown", "hang": "unknown"}.get(reply, "err")
 
 
 def reference(case):
